@@ -137,11 +137,17 @@ def plans(tier):
             dict(name="bytes", mode="check", n=0, depth=2, allocs=2, nptrs=4, ids=3, sizes=[4], offs=[2], wl=[2, 4],
                  seeds=[1], rs=[0, 1, 2, 4], cs=[2, 4]),
         ]
+        # (bounds measured: 75k + 46k + 153k + 88k behaviours, 3.6 M operations; the first thorough plan - three frames,
+        # four / five pointers - emitted 3.1 M + > 10 M behaviours and exhausted the memory of the driver)
         behaviours = [
-            dict(name="frames", mode="cover", n=7, depth=3, allocs=2, nptrs=4, ids=4, sizes=[0, 4], offs=[2, 4], wl=[2, 4],
+            dict(name="frames", mode="cover", n=7, depth=2, allocs=2, nptrs=3, ids=3, sizes=[0, 4], offs=[4], wl=[4],
                  seeds=[1], rs=[], cs=[], **full),
-            dict(name="copies", mode="cover", n=7, depth=2, allocs=2, nptrs=5, ids=3, sizes=[12, 16], offs=[4, 8], wl=[4],
-                 seeds=[1, 2, 3], rs=[], cs=[4, 12], **big),
+            dict(name="frames3", mode="cover", n=6, depth=3, allocs=2, nptrs=3, ids=4, sizes=[4], offs=[4], wl=[4],
+                 seeds=[1], rs=[], cs=[], **full),
+            dict(name="align", mode="cover", n=3, depth=1, allocs=2, nptrs=3, ids=1, sizes=[8, 12], offs=[1, 2, 4], wl=[],
+                 seeds=[1], rs=[], cs=[], **wide),
+            dict(name="copies", mode="cover", n=6, depth=1, allocs=2, nptrs=3, ids=1, sizes=[12, 16], offs=[4, 8], wl=[4],
+                 seeds=[1, 2], rs=[], cs=[4, 12], **big),
             dict(name="short", mode="all", n=4, depth=2, allocs=2, nptrs=3, ids=3, sizes=[0, 2], offs=[1], wl=[1, 2],
                  seeds=[1], rs=[1, 2], cs=[2], **full),
         ]
